@@ -42,3 +42,82 @@ def readonly(repo, run, rule_id, rel, quals, what, allowed=(), floor=None):
         run.judged(rid, "%s stores %s" % (q, sorted({b for _, b in bad}) or "nothing"), ok=not bad)
         for st, b in bad:
             run.report(rule_id, rel, st, "%s writes `%s`: state left behind by one call is visible to the next (a lookup answered from a value cached by an earlier lookup)" % (q, b))
+
+
+# ------------------------------------------------------------------------------------------------
+def reachable_under(node, root, canon, fix, max_free=14):
+    """Can ``node`` execute (path condition inside ``root``, guard clauses and short circuits included) under a hypothesis that fixes some atoms?
+    ``fix(leaf)`` returns True/False for the atoms the hypothesis decides and None for the others, which stay free.  Returns (reachable, #fixed)."""
+    import itertools
+    from ..sym import path_condition, tree_atoms, eval_bool, BoolTracker
+    bt = BoolTracker(canon=canon)
+    pc, _ = path_condition(node, root, tracker=bt, guards=True)
+    atoms = tree_atoms(pc)
+    fixed = {}
+    for a in atoms:
+        v = fix(bt.leaves.get(a))
+        if v is not None:
+            fixed[a] = v
+    free = [a for a in atoms if a not in fixed]
+    if len(free) > max_free:
+        return True, len(fixed)
+    for vals in itertools.product((False, True), repeat=len(free)):
+        asg = dict(fixed)
+        asg.update(zip(free, vals))
+        if eval_bool(pc, asg):
+            return True, len(fixed)
+    return False, len(fixed)
+
+
+def index_decrement(repo, run, rule_id, rel, quals):
+    """An index that is decremented must be known to be positive where that happens: `idx - 1` evaluated at idx == 0 is -1, which Python (and numpy)
+    accept as 'the last element' -- for a piece lookup that is the interpolant of the other END of the run, extrapolated across it."""
+    import operator
+    from ..front import const_value
+    from ..sym import Canon, inline_locals
+    rid = run.rule(rule_id, "an index is decremented only where it is known to be positive: every `<index> - k` is unreachable under <index> < k (path condition with "
+                            "guards), so a piece lookup never wraps around to the other end of the list", floor=len(quals))
+    ops = {"Eq": operator.eq, "NotEq": operator.ne, "Lt": operator.lt, "LtE": operator.le, "Gt": operator.gt, "GtE": operator.ge}
+    for q in quals:
+        fn = repo.get(rel, q)
+        run.analysed_fn(rel, fn)
+        canon = Canon(env=inline_locals(fn))
+        sites = []
+        for n in walk_no_nested(fn):
+            if isinstance(n, ast.BinOp) and isinstance(n.op, ast.Sub) and isinstance(n.left, ast.Name) and isinstance(n.right, ast.Constant) and \
+                    isinstance(n.right.value, int) and not isinstance(n.right.value, bool) and n.right.value > 0:
+                sites.append((n, n.left.id, n.right.value))
+            if isinstance(n, ast.AugAssign) and isinstance(n.op, ast.Sub) and isinstance(n.target, ast.Name) and isinstance(n.value, ast.Constant) and \
+                    isinstance(n.value.value, int) and n.value.value > 0:
+                sites.append((n, n.target.id, n.value.value))
+        for n, name, k in sites:
+            worst = None
+            for v0 in range(k):             # hypotheses index == 0 .. k-1
+                def fix(leaf, v0=v0):
+                    if isinstance(leaf, tuple):
+                        l, op, r = leaf
+                        opn = type(op).__name__
+                        if opn not in ops:
+                            return None
+                        try:
+                            if isinstance(l, ast.Name) and l.id == name:
+                                return ops[opn](v0, const_value(r))
+                            if isinstance(r, ast.Name) and r.id == name:
+                                return ops[opn](const_value(l), v0)
+                        except (ValueError, TypeError):
+                            return None
+                        return None
+                    if isinstance(leaf, ast.Name) and leaf.id == name:
+                        return bool(v0)
+                    return None
+                reach, nfixed = reachable_under(n, fn, canon, fix)
+                if reach:
+                    worst = v0
+                    break
+            run.judged(rid, "%s: `%s` unreachable while %s < %d" % (q, src(n), name, k), ok=worst is None)
+            if worst is not None:
+                run.report(rule_id, rel, n, "`%s` can execute while %s == %d: the result %d is taken by list / array indexing as 'counted from the END', so a query beyond the "
+                                            "first piece (e.g. past the far end of a backward run) is answered by the piece at the other end of the run, extrapolated across it" % (
+                                                src(n), name, worst, worst - k))
+        if not sites:
+            run.judged(rid, "%s: no index decrement" % q, nontrivial=False)
